@@ -348,9 +348,10 @@ _BUILTIN_SAMPLES = {
     'xs:IDREF': ['a', 'P1', '_id'],
     'xs:language': ['en', 'de', 'en-US', 'fr-CA', 'zh-Hant'],
     'xs:decimal': ['0', '1', '-1', '1.5', '-0.25', '100', '12345.678', '0.001'],
-    'xs:integer': ['0', '1', '-1', '42', '-100', '123456789012'],
-    'xs:nonNegativeInteger': ['0', '1', '42', '123456789012'],
-    'xs:positiveInteger': ['1', '2', '42', '123456789012'],
+    'xs:integer': ['0', '1', '-1', '42', '-100', '123456789012', '9007199254740993', '-9007199254740993',
+                   '18446744073709551617'],
+    'xs:nonNegativeInteger': ['0', '1', '42', '123456789012', '9007199254740993', '18446744073709551617'],
+    'xs:positiveInteger': ['1', '2', '42', '123456789012', '9007199254740993', '18446744073709551617'],
     'xs:date': ['2024-01-31', '1999-12-01', '2000-02-29', '0001-01-01'],
     'xs:anyURI': ['a.png', 'http://example.org/x', 'file.xml#frag', 'dir/file'],
 }
